@@ -312,13 +312,18 @@ class FieldMappingTransformationBase(DetectionItemTransformation):
                 self.processing_item_applied(detection_item)
                 result = detection_item
             else:
-                result = SigmaDetection(
-                    [
-                        dataclasses.replace(detection_item, field=field, auto_modifiers=False)
-                        for field in mapping
-                    ],
-                    item_linking=ConditionOR,
-                )
+                mapped_items = []
+                for mapped_field in mapping:
+                    mapped_item = dataclasses.replace(
+                        detection_item, field=mapped_field, auto_modifiers=False
+                    )
+                    # dataclasses.replace() starts with empty tracking information: keep the
+                    # processing items already applied to the original detection item.
+                    mapped_item.applied_processing_items = (
+                        detection_item.applied_processing_items.copy()
+                    )
+                    mapped_items.append(mapped_item)
+                result = SigmaDetection(mapped_items, item_linking=ConditionOR)
         if field_match or fieldref_match:  # field name was changed or field reference was mapped
             if self._pipeline is not None and mapping is not None:
                 self._pipeline.field_mappings.add_mapping(field, mapping)
